@@ -134,7 +134,10 @@ func (p *Path) TreePrefix() string {
 		case p.relativePath != "":
 			return p.relativePath + "/"
 		default:
-			return "???"
+			// We haven't found anything that refers to this tree
+			// (e.g., it is only reachable via an annotated tag), so
+			// refer to it by its OID:
+			return p.OID.String() + ":"
 		}
 	case "commit", "tag":
 		switch {
